@@ -96,7 +96,7 @@ func (b *byzState) highQC() hotstuff.QuorumCert {
 var byzActions = []string{
 	"honest-propose", "equivocate", "parent-not-certified", "fork-old-qc", "inflate-view", "relabel-qc", "repeated-signer-qc",
 	"newview-stale", "newview-forged-tc", "timeout-future", "timeout-foreign-sig", "timeout-garbage", "timeout-honest",
-	"syncinfo-mixed", "double-vote", "multi-signer-vote", "vote-unknown-block", "vote-garbage", "aggqc-relabelled", "silence",
+	"syncinfo-mixed", "stale-view-propose", "double-vote", "multi-signer-vote", "vote-unknown-block", "vote-garbage", "aggqc-relabelled", "silence",
 }
 
 func (c *Cluster) byzBatch(a *Actor) *clientpb.Batch {
@@ -257,6 +257,24 @@ func (c *Cluster) ByzAct(a *Actor, which string) {
 		}
 		old := st.qcs[c.Rng.Intn(len(st.qcs))]
 		c.sendAll(a, mkProp(hotstuff.NewBlock(old.BlockHash(), old, c.byzBatch(a), view, a.ID)))
+	case "stale-view-propose":
+		// a well-formed block for an OLDER view that this actor does not lead (certificate, parent and batch in order):
+		// replicas that skipped that view without voting or timing out are the targets
+		if len(st.qcs) == 0 || st.maxView < 2 {
+			return
+		}
+		qc := hq
+		if c.Rng.Chance(1, 2) {
+			qc = st.qcs[c.Rng.Intn(len(st.qcs))]
+		}
+		if st.maxView <= qc.View()+1 {
+			return
+		}
+		pv := qc.View() + 1 + hotstuff.View(c.Rng.Intn(int(st.maxView-qc.View()-1)))
+		if c.publicLeader(pv) == a.ID {
+			pv++
+		}
+		c.sendAll(a, mkProp(hotstuff.NewBlock(qc.BlockHash(), qc, c.byzBatch(a), pv, a.ID)))
 	case "inflate-view":
 		v := view + hotstuff.View([]int{1, 2, 5, 9, 1000}[c.Rng.Intn(5)])
 		c.sendAll(a, mkProp(hotstuff.NewBlock(hq.BlockHash(), hq, c.byzBatch(a), v, a.ID)))
